@@ -1,3 +1,13 @@
-/- C15 property theorems (not written yet) -/
+/-
+C15 — URLs keep their meaning between IRI, URI, environ and request.
+Property theorems only (helper lemmas live in Lemmas/Url.lean).
+-/
+import WzVerif.Model.Url
 namespace Wz.Props.C15
+open Wz Wz.Url
+
+/-- Every safe set `iri_to_uri` passes to `quote` (collected from the AST on every run) contains
+`%`: already quoted text is left alone (the premise of idempotence). -/
+theorem iri_safe_sets_keep_percent : ∀ p ∈ Gen.UrlTables.iriSafeSets, p.2.contains '%' = true := by decide
+
 end Wz.Props.C15
